@@ -26,6 +26,18 @@ var solvers = []Solver{
 }
 
 func queryText(fr *FuncResult, o *Obligation) string {
+	if len(o.Subs) > 0 {
+		var b strings.Builder
+		for i, sg := range o.Subs {
+			fmt.Fprintf(&b, "; ---- sub-goal %d of %d\n", i+1, len(o.Subs))
+			b.WriteString(subQueryText(fr, o, sg))
+		}
+		return b.String()
+	}
+	return subQueryText(fr, o, &SubGoal{Prefix: o.Prefix, Cond: o.Cond, Goal: o.Goal, Extra: o.Extra})
+}
+
+func subQueryText(fr *FuncResult, o *Obligation, sg *SubGoal) string {
 	var b strings.Builder
 	b.WriteString("(set-option :produce-models true)\n(set-logic ALL)\n")
 	cover := o.Expect == "sat"
@@ -36,19 +48,16 @@ func queryText(fr *FuncResult, o *Obligation) string {
 		b.WriteString(l)
 		b.WriteByte('\n')
 	}
-	for _, l := range fr.Script[:o.Prefix] {
-		if cover && strings.Contains(l, "(forall ") {
-			continue
-		}
+	for _, l := range sliceScript(fr.Script[:sg.Prefix], sg, cover) {
 		b.WriteString(l)
 		b.WriteByte('\n')
 	}
-	for _, l := range o.Extra {
+	for _, l := range sg.Extra {
 		b.WriteString(l)
 		b.WriteByte('\n')
 	}
-	fmt.Fprintf(&b, "(assert %s)\n", o.Cond)
-	fmt.Fprintf(&b, "(assert (not %s))\n", o.Goal)
+	fmt.Fprintf(&b, "(assert %s)\n", sg.Cond)
+	fmt.Fprintf(&b, "(assert (not %s))\n", sg.Goal)
 	b.WriteString("(check-sat)\n(get-model)\n")
 	return b.String()
 }
@@ -93,6 +102,24 @@ func runSolver(s Solver, file string, timeoutMs int) solveResult {
 // other two in parallel with the full budget.
 func discharge(fr *FuncResult, o *Obligation, dir string, timeoutMs int, idx int) {
 	if o.Solver == "syntactic" {
+		return
+	}
+	if len(o.Subs) > 0 {
+		t0 := time.Now()
+		o.Status = "unsat"
+		o.Solver = ""
+		for k, sg := range o.Subs {
+			tmp := &Obligation{Name: o.Name, Prefix: sg.Prefix, Cond: sg.Cond, Goal: sg.Goal, Extra: sg.Extra, Expect: o.Expect}
+			discharge(fr, tmp, dir, timeoutMs, idx*64+k+1000000)
+			if o.Solver == "" || tmp.Status != "unsat" {
+				o.Solver = tmp.Solver
+			}
+			if tmp.Status != "unsat" {
+				o.Status, o.Model, o.Output = tmp.Status, tmp.Model, fmt.Sprintf("sub-goal %d of %d:\n%s", k+1, len(o.Subs), tmp.Output)
+				break
+			}
+		}
+		o.Seconds = time.Since(t0).Seconds()
 		return
 	}
 	q := queryText(fr, o)
@@ -188,4 +215,118 @@ func scratchRoot() string {
 		return d
 	}
 	return "/var/tmp"
+}
+
+// sliceScript keeps every plain assumption, and of the definitional lines
+// "(assert (= sym term))" and quantified array axioms only those whose defined
+// symbol is (transitively) referenced.  Dropping assumptions is always sound.
+func sliceScript(lines []string, o *SubGoal, cover bool) []string {
+	type cls struct {
+		def   string
+		axiom bool
+		syms  []string
+	}
+	info := make([]cls, len(lines))
+	relevant := map[string]bool{}
+	add := func(text string) {
+		for _, s := range smtSymbols(text) {
+			relevant[s] = true
+		}
+	}
+	add(o.Goal)
+	add(o.Cond)
+	for _, e := range o.Extra {
+		add(e)
+	}
+	for i, l := range lines {
+		c := cls{}
+		switch {
+		case strings.HasPrefix(l, "(assert (forall (("):
+			c.axiom = true
+			// (assert (forall ((i!N S)) (! (= (select ARR i!N) ...
+			if k := strings.Index(l, "(= (select "); k >= 0 {
+				rest := l[k+len("(= (select "):]
+				if j := strings.IndexByte(rest, ' '); j > 0 {
+					c.def = rest[:j]
+				}
+			}
+		case strings.HasPrefix(l, "(assert (= "):
+			rest := l[len("(assert (= "):]
+			if j := strings.IndexByte(rest, ' '); j > 0 && rest[0] != '(' {
+				sym := rest[:j]
+				if strings.ContainsAny(sym, "!") && !strings.HasPrefix(sym, "p!") {
+					c.def = sym
+				}
+			}
+		}
+		if c.def == "" && !c.axiom {
+			add(l)
+		} else {
+			c.syms = smtSymbols(l)
+		}
+		info[i] = c
+	}
+	included := make([]bool, len(lines))
+	for changed := true; changed; {
+		changed = false
+		for i, c := range info {
+			if included[i] || (c.def == "" && !c.axiom) {
+				continue
+			}
+			if c.def == "" || relevant[c.def] {
+				included[i] = true
+				changed = true
+				for _, s := range c.syms {
+					relevant[s] = true
+				}
+			}
+		}
+	}
+	var out []string
+	for i, l := range lines {
+		c := info[i]
+		if c.def != "" || c.axiom {
+			if !included[i] {
+				continue
+			}
+		}
+		if cover && strings.Contains(l, "(forall ") {
+			continue
+		}
+		out = append(out, l)
+	}
+	return out
+}
+
+// smtSymbols lists the identifiers occurring in an SMT-LIB text.
+func smtSymbols(text string) []string {
+	var out []string
+	i := 0
+	for i < len(text) {
+		c := text[i]
+		switch {
+		case c == '|':
+			j := i + 1
+			for j < len(text) && text[j] != '|' {
+				j++
+			}
+			out = append(out, text[i:min(j+1, len(text))])
+			i = j + 1
+		case c >= 'a' && c <= 'z' || c >= 'A' && c <= 'Z' || c == '_' || c == '!' || c == '$' || c == '.':
+			j := i
+			for j < len(text) {
+				d := text[j]
+				if d >= 'a' && d <= 'z' || d >= 'A' && d <= 'Z' || d >= '0' && d <= '9' || d == '_' || d == '!' || d == '$' || d == '.' || d == '-' {
+					j++
+				} else {
+					break
+				}
+			}
+			out = append(out, text[i:j])
+			i = j
+		default:
+			i++
+		}
+	}
+	return out
 }
